@@ -4032,8 +4032,20 @@ coap_dispatch(coap_context_t *context, coap_session_t *session,
     if (pdu->type == COAP_MESSAGE_CON) {
       coap_send_message_type_lkd(session, pdu, COAP_MESSAGE_RST);
     }
-    /* find message id in sendqueue to stop retransmission */
-    coap_remove_from_queue(&context->sendqueue, session, pdu->mid, &sent);
+    /*
+     * find message id in sendqueue to stop retransmission: only an ACK or a
+     * RST carries one of our message ids, and the Confirmable it takes off the
+     * queue no longer is in flight
+     */
+    if (pdu->type == COAP_MESSAGE_ACK || pdu->type == COAP_MESSAGE_RST) {
+      coap_remove_from_queue(&context->sendqueue, session, pdu->mid, &sent);
+      if (sent && sent->pdu->type == COAP_MESSAGE_CON && session->con_active) {
+        session->con_active--;
+        if (session->state == COAP_SESSION_STATE_ESTABLISHED)
+          /* Flush out any entries on session->delayqueue */
+          coap_session_connected(session);
+      }
+    }
     goto cleanup;
   }
 
